@@ -457,12 +457,13 @@ pub fn gen_agg_call(rng: &mut Rng, s: &Schema, cfg: &ExprCfg, order_insensitive_
         11 => {
             // arithmetic wrapper around an aggregate
             let inner = E::Agg("sum".into(), false, vec![agg_arg(rng, s, &Ty::Int, cfg)]);
-            match rng.below(3) { 0 => bin("*", inner, int(2)), 1 => bin("+", int(1), inner), _ => bin("-", inner, int(1)) }
+            match rng.below(4) { 0 => bin("*", inner, int(2)), 1 => bin("+", int(1), inner), 2 => bin("/", int(100), inner), _ => bin("-", inner, int(1)) }
         }
         12 => {
             // ... around COUNT: COUNT over a column is 0 (not NULL) for a group in which the column is NULL everywhere
             let inner = if rng.chance(1, 2) { E::Agg("count".into(), false, vec![E::Star]) } else { let c = &s.cols[rng.below(s.cols.len())]; E::Agg("count".into(), rng.chance(1, 4), vec![col(&c.0)]) };
-            match rng.below(4) { 0 => bin("*", inner, int(10)), 1 => bin("+", int(1), inner), 2 => bin("-", bin("*", inner, int(10)), int(3)), _ => bin("-", int(100), inner) }
+            // the count as a divisor: the statement has no result (an error) as long as some group's count is 0 / 1
+            match rng.below(6) { 0 => bin("*", inner, int(10)), 1 => bin("+", int(1), inner), 2 => bin("-", bin("*", inner, int(10)), int(3)), 3 => bin("/", int(1000), inner), 4 => bin("/", int(100), bin("-", inner, int(1))), _ => bin("-", int(100), inner) }
         }
         13 => E::Agg("string_agg".into(), false, vec![agg_arg(rng, s, &Ty::Text, cfg), text(*rng.pick(&[",", "", "; ", "-"]))]),
         14 => { let t = match rng.below(3) { 0 => Ty::Text, 1 => Ty::Real, _ => Ty::Int }; E::Agg("array_agg".into(), false, vec![agg_arg(rng, s, &t, cfg)]) }
